@@ -1,6 +1,9 @@
-\* C14 thorough: up to three simultaneous deviations from the valid request, x 4 configurations
+\* C14 thorough: up to three simultaneous deviations from the valid request, x 4 configurations,
+\* fallback = configured 404
 SPECIFICATION Spec
 CONSTANTS
   MaxDev = 3
+  UseBackends = {"none"}
+  NPick = 6
 INVARIANTS TypeOK Laws Single Emit
 CHECK_DEADLOCK FALSE
